@@ -58,6 +58,10 @@ type World struct {
 	SMS   []SMSMsg
 	Log   []string
 
+	// Layout is the application's template data map, injected into every request's context under
+	// authboss.CTXKeyData when Config.SharedLayout is set (the same map instance for the world's lifetime).
+	Layout map[string]interface{}
+
 	// Truth is the oracle's memory (see truth.go)
 	Truth *Truth
 }
@@ -84,6 +88,12 @@ func (w *World) Clone() *World {
 	c.SMS = append([]SMSMsg(nil), w.SMS...)
 	c.Log = append([]string(nil), w.Log...)
 	c.Truth = w.Truth.Clone()
+	if w.Layout != nil {
+		c.Layout = map[string]interface{}{}
+		for k, v := range w.Layout {
+			c.Layout[k] = v
+		}
+	}
 	return c
 }
 
